@@ -163,6 +163,7 @@ func c05CommandValues(r *engine.Run) {
 				fail("decode", err)
 				return
 			}
+			observe(&q) // a receiver logs the frame it decoded
 			qm, ok := q.MACPayload.(*lorawan.MACPayload)
 			if !ok {
 				fail("decode", fmt.Errorf("MACPayload is %T", q.MACPayload))
